@@ -66,12 +66,13 @@ impl LockFile {
 	/// Acquires the lock, returning an error if the database is already in use
 	#[cfg(not(target_arch = "wasm32"))]
 	pub fn acquire(&mut self) -> Result<()> {
-		// Try to open the lock file with create flag
+		// Try to open the lock file with create flag. Do not truncate here: the
+		// file may belong to a live owner; it is emptied below, once the lock is held.
 		let file = OpenOptions::new()
 			.read(true)
 			.write(true)
 			.create(true)
-			.truncate(true)
+			.truncate(false)
 			.open(&self.path)
 			.map_err(|e| Error::Io(Arc::new(e)))?;
 
